@@ -301,6 +301,7 @@ func (n *node) lawLite(ia, ib int) (law, msg string) {
 
 var wantDesc = map[string]string{
 	"native-order":    "native order of the underlying values",
+	"supplied-order":  "order of the component instance that was supplied",
 	"lexicographic":   "lexicographic order over the component instances",
 	"component-order": "order of the component instance",
 	"flips":           "reversed order of the source instance",
@@ -791,8 +792,14 @@ func byShow[T any](n *node) fp.Ord[T] {
 	return ord.FromCompare(func(a, b T) int { return strings.Compare(n.show(a), n.show(b)) })
 }
 
+// deriveOn: the custom-component expressions get their derived instances in the thorough tier only
+var deriveOn = true
+
 // derive registers New, FromCompare, as.Ord, Reversed, ThenComparing applied to k.
 func derive[T any](c *catalogue, k *inst[T], again bool) {
+	if !deriveOn {
+		return
+	}
 	src := k.n
 	sameAs := func(a, b any) (int, int) { return sign(src.o.compare(a, b)), exact }
 	add := func(head, law string, want func(a, b any) (int, int), o func() fp.Ord[T], extraKids ...*node) *inst[T] {
